@@ -118,10 +118,22 @@ pub fn check_svg(svg: &str, qr: &QRCode, spec: &Spec) -> Result<Counts, V> {
             Err(e) => return bad("path-syntax", format!("layer {li}: {e}")),
         };
         let mut seen = vec![false; n * n];
+        // glyph of this layer relative to its cell, taken from the first sub-path: a built-in shape is one
+        // glyph translated to (column+margin, row+margin), so every other sub-path must be the same glyph
+        let mut glyph: Option<([f64; 4], usize, bool)> = None;
         for sp in &sps {
             let (cx, cy) = sp.centre();
             let col = cx.floor();
             let row = cy.floor();
+            let rel = [sp.min.0 - col, sp.min.1 - row, sp.max.0 - col, sp.max.1 - row];
+            match &glyph {
+                None => glyph = Some((rel, sp.segments, sp.closed)),
+                Some((g, segs, closed)) => {
+                    if rel.iter().zip(g.iter()).any(|(a, b)| (a - b).abs() > 1e-6) || *segs != sp.segments || *closed != sp.closed {
+                        return bad("subpath-glyph-varies", format!("layer {li}: sub-path at {:?} occupies {:?} of its cell with {} segments, the first sub-path of the layer occupies {:?} with {} segments: not one shape translated to each module", sp.start, rel, sp.segments, g, segs));
+                    }
+                }
+            }
             const TOL: f64 = 0.06;
             if sp.min.0 < col - TOL || sp.max.0 > col + 1.0 + TOL || sp.min.1 < row - TOL || sp.max.1 > row + 1.0 + TOL {
                 return bad("subpath-spans-cells", format!("layer {li}: sub-path starting at {:?} has bounding box {:?}..{:?}, not inside one unit cell", sp.start, sp.min, sp.max));
